@@ -175,7 +175,7 @@ func propC04(c *Ctx) {
 	c.Rule("R4.3", "names are fixed at construction and nowhere else", 6)
 	lm := newLoadTasksModel(c)
 	var ctxSrc, ctxIG, ctxChain *ssa.Call
-	for _, ci := range callsIn(lm.fn) {
+	for _, ci := range lm.reg.Calls() {
 		if call, ok := ci.(*ssa.Call); ok {
 			switch calleeName(call) {
 			case modPath + "/wctx.WithSrcName":
@@ -191,14 +191,14 @@ func propC04(c *Ctx) {
 	ok := ctxSrc != nil && optSrc != nil && sameVar(ctxSrc.Call.Args[1], optSrc.Call.Args[0])
 	c.Check("R4.3", "loadTasks/src-name-same-value", lm.fn.Pos(), ok, "wctx.WithSrcName and shovel.WithSrcName receive the same source-config field")
 	if ok {
-		_, chain := fieldChain(optSrc.Call.Args[0])
+		_, chain := lm.chain(optSrc.Call.Args[0])
 		c.Check("R4.3", "loadTasks/src-name-is-Source.Name", optSrc.Pos(), chainIs(chain, w.Field("shovel/config", "Source", "Name")), "the stamped source name is config.Source.Name")
 	}
 	ok = ctxChain != nil && optChain != nil && sameVar(ctxChain.Call.Args[1], optChain.Call.Args[0])
 	c.Check("R4.3", "loadTasks/chain-id-same-value", lm.fn.Pos(), ok, "context and task receive the same chain id")
 	ok = false
 	if ctxIG != nil && lm.igVal != nil {
-		root, chain := fieldChain(ctxIG.Call.Args[1])
+		root, chain := lm.chain(ctxIG.Call.Args[1])
 		ok = chainIs(chain, fIgName) && sameElem(root, lm.igVal)
 	}
 	c.Check("R4.3", "loadTasks/ig-name-of-the-task's-integration", lm.fn.Pos(), ok, "wctx.WithIGName receives Name of the integration value passed to WithIntegration")
@@ -255,7 +255,8 @@ func propC04(c *Ctx) {
 					continue
 				}
 				n++
-				if !allowedStampers[name][fnName(fn)] {
+				// loadTasks includes the helpers only it calls (inlined view)
+				if !allowedStampers[name][fnName(fn)] && !(allowedStampers[name]["shovel.loadTasks"] && lm.reg.Has(fn)) {
 					bad = append(bad, fnName(fn)+" at "+w.Pos(instrPos(ci)))
 				}
 				if fnName(fn) == "(dig.Integration).Insert" {
